@@ -147,7 +147,7 @@ theorem chains_addRr_none {s s' : State} (hw : WInv s) (hl : PtrLogOK s) (owner 
   refine ⟨hrec.winv, hrec.log, e, ?_, ⟨s.cursor, k, s'.cursor - (s.cursor + k + 10)⟩, ?_, ?_⟩
   · exact qchain_move (fun a k _ it => item_ext it e) hq
   · exact rchain_append (rchain_ext e hr) (rchain_one hit hlen hb hle)
-  · exact be16_of_bytesAt htb hty
+  · exact be16_of_bytesAt htb.1 hty
 
 
 theorem unwrap_ok_inv' {α} {f : M α} {s s' : State} {a : α} (h : unwrap f s = (.ok a, s')) :
